@@ -3,6 +3,7 @@ use std::sync::Arc;
 
 use crate::engine::core::ConditionEvaluator;
 use crate::engine::core::MemTable;
+use crate::engine::core::filter::condition::CompareOp;
 use crate::engine::core::read::flow::{
     BatchSchema, ColumnBatchBuilder, FlowContext, FlowOperatorError, FlowSource,
 };
@@ -195,7 +196,18 @@ impl FlowSource for MemTableSource {
                 .map_err(|e| FlowOperatorError::Batch(format!("failed to build schema: {}", e)))?,
         );
 
-        let evaluator = ConditionEvaluatorBuilder::build_from_plan(&self.config.plan);
+        let mut evaluator = ConditionEvaluatorBuilder::build_from_plan(&self.config.plan);
+        // build_from_plan skips the special-field conditions for aggregations because
+        // segment zones are already partitioned per event type and do not hydrate the
+        // event_type column. A memtable holds events of every type, so the event_type
+        // filter must still be applied here or other types' rows leak into the aggregate.
+        if self.config.plan.aggregate_plan.is_some() && self.config.plan.event_type() != "*" {
+            evaluator.add_string_condition(
+                "event_type".to_string(),
+                CompareOp::Eq,
+                self.config.plan.event_type().to_string(),
+            );
+        }
         let query_ctx = QueryContext::from_command(&self.config.plan.command);
         let limit = self.determine_limit(&query_ctx);
 
